@@ -7,6 +7,14 @@ TECH = "deterministic simulation with fault injection"
 checks = {
     "C01": ("exploration", "seeded search over packet histories x transports x interleavings of the real gateway (real main(), net/http, gorilla) against a per-tunnel reference state machine, the dial log and host byte streams",
             TECH + " (seeded schedules; reference state machine over recorded history)"),
+    "C02": ("exploration", "cookie forgeries x IdP fault conditions x clock jumps, each on a fresh tunnel of the real gateway against an acceptance model that verifies the MAC itself; the genuine cookie comes from the real login and download flow",
+            TECH + " (IdP faults, clock jumps, forged inputs; acceptance model oracle)"),
+    "C12": ("exploration", "real OpenID login against a stub IdP and the real download handler under drawn policies; independent RDP-file and token decoding; the issued host and token are replayed through a real tunnel",
+            TECH + " (seeded configurations and sessions; claims model + replay through the tunnel state machine)"),
+    "C13": ("fault_enumeration", "callback failure point x session store x session state enumerated by seed against the real callback handler, IdP faults injected by the stub provider, clock jumps for state expiry, restart with regenerated keys for foreign cookies",
+            TECH + " (IdP fault injection at enumerated points, clock jump, node restart; 'authenticated implies verified login' oracle)"),
+    "C15": ("exploration", "user tokens minted by the real download flow and forged/mutated/aged/cross-mode variants presented to /tokeninfo of the real binary",
+            TECH + " (clock jumps, node restart into the other key mode, forged inputs; status model)"),
     "C03": ("exploration", "seeded search over host policies x near-miss server names on real tunnels; every dial of a run must be the authorised request verbatim, refusals must be reported and cause no dial",
             TECH + " (seeded inputs on simulated tunnels; policy model oracle over the dial log)"),
     "C04": ("exploration", "seeded search over issuing/presenting address pairs (peer, X-Forwarded-For chains, legacy IN/OUT split) x verification switch on real tunnels",
@@ -32,13 +40,13 @@ not_applicable = [
 ]
 
 pending = {
-    "C02": "check under construction in this session (WEB/IdP family)",
+    "_C02": "check under construction in this session (WEB/IdP family)",
     "C05": "check under construction in this session (AUTH family)",
     "C10": "check under construction in this session (HOSTILE family)",
-    "C12": "check under construction in this session (WEB family)",
-    "C13": "check under construction in this session (WEB family)",
+    "_C12": "check under construction in this session (WEB family)",
+    "_C13": "check under construction in this session (WEB family)",
     "C14": "check under construction in this session (AUTH family)",
-    "C15": "check under construction in this session (WEB family)",
+    "_C15": "check under construction in this session (WEB family)",
     "C18": "check under construction in this session (BOOT family)",
     "C20": "check under construction in this session (KDC family)",
 }
